@@ -772,6 +772,18 @@ func execBatch(sc *Scenario, env *Env) *Result {
 			res.WallMS = nowMS(t0)
 			return res
 		}
+		if where, model := panicOrigin(refs[i].crashed); refs[i].crashed != "" && model && (sc.Prop == "C11" || sc.Prop == "C03") {
+			// the line run alone panics inside the model: it neither succeeds nor fails with an error of its own (in a batch the
+			// panic would take the whole session with it)
+			file := where
+			if k := strings.LastIndexByte(file, ':'); k > 0 {
+				file = file[:k]
+			}
+			res.Violations = append(res.Violations, Violation{Prop: sc.Prop, Oracle: "termination", Class: "run-panics@" + file, Detail: fmt.Sprintf("line %q run alone panics inside the model (%s): %s", sc.lineText(i), where, firstLine(refs[i].crashed)), Line: fmt.Sprint(i)})
+			res.Status = "violation"
+			res.WallMS = nowMS(t0)
+			return res
+		}
 		if refs[i].crashed != "" {
 			res.Status, res.Note = "crash", "reference run of line "+fmt.Sprint(i)+" panicked: "+shortPanic(refs[i].crashed)
 			res.WallMS = nowMS(t0)
